@@ -59,6 +59,12 @@ class Interp:
     def assign(self, t, v):
         c = self.c
         if isinstance(t, ast.Name):
+            if isinstance(v, SRef):
+                fr = c.frames[-1]
+                if isinstance(fr.func, SFunc):
+                    lt = self.w.local_types.get((fr.func.info.path, t.id))
+                    if lt:
+                        v = SRef(v.e, lt)
             c.env[t.id] = v
         elif isinstance(t, (ast.Tuple, ast.List)):
             vs = self.unpack(v, len(t.elts))
@@ -281,9 +287,13 @@ class Interp:
         if kind == 'while':
             cond = self.truth(self.eval(st.test))
             if not c.branch(cond, 'while%d' % ordinal):
+                if getattr(spec, 'on_exit', None):
+                    spec.on_exit(self, env)
                 return                                  # exit by guard from an arbitrary iteration
         else:
             if not B.for_next(self, st, env, ordinal, it_state):
+                if getattr(spec, 'on_exit', None):
+                    spec.on_exit(self, env)
                 return
         # 4. one arbitrary iteration
         saved_log = c.write_log
@@ -296,6 +306,8 @@ class Interp:
                 pass
         except BreakSignal:
             self.check_loop_frame(lname, mods, saved_log, saved_fresh)
+            if getattr(spec, 'on_exit', None):
+                spec.on_exit(self, env)
             return
         except (ReturnSignal, Raised):
             self.check_loop_frame(lname, mods, saved_log, saved_fresh)
